@@ -347,29 +347,34 @@ def rule_rho_between_rhoend_and_rhobeg(eng, rep, rule="C18-8.rho-stays-between-r
         return
     newvar = rho_store[0].value.id
 
+    nonstrict_keys = []
+
     def bounds(e, at_ast, lo, hi):
         """(lower bound of e / rhoend, e <= old rho ?) for ratio in (lo, hi]; None if the expression is outside the rule's vocabulary"""
         t = ekey(e)
         if t == "%s.rhoend" % selfn:
-            return 1.0, lo >= 1.0
+            return 1.0, lo >= 1.0, lo >= 1.0                        # rhoend < rho: the call sites establish rho > rhoend
         if isinstance(e, ast.BinOp) and isinstance(e.op, ast.Mult):
             for x, y in ((e.left, e.right), (e.right, e.left)):
                 if ekey(y) == "%s.rhoend" % selfn and isinstance(x, ast.Call) and ekey(x.func).split(".")[-1] == "sqrt" and len(x.args) == 1 and ekey(x.args[0]) == ratio:
-                    return math.sqrt(lo), lo >= 1.0                 # sqrt(r) <= r  iff  r >= 1
+                    return math.sqrt(lo), lo >= 1.0, lo >= 1.0      # sqrt(r) <= r  iff  r >= 1 (strictly for r > 1)
                 if ekey(y) == "%s.rho" % selfn:
                     c = const_value(x)
                     if c is not None:
-                        return c * lo, c <= 1.0
+                        return c * lo, c <= 1.0, c < 1.0
                     pr = _param_range(eng, typed, cfg, at_ast, x)
                     if pr is not None and pr[1] is not None:
-                        return pr[1] * lo, pr[2] is not None and pr[2] <= 1.0
+                        strict = pr[2] is not None and (pr[2] < 1.0 or (pr[2] <= 1.0 and _strictly_below_one(eng, pr[0]) is not None))
+                        if not strict:
+                            nonstrict_keys.append(pr[0])
+                        return pr[1] * lo, pr[2] is not None and pr[2] <= 1.0, strict
         if isinstance(e, ast.Call) and isinstance(e.func, ast.Name) and e.func.id in ("max", "min") and len(e.args) == 2:
             a_, b_ = bounds(e.args[0], at_ast, lo, hi), bounds(e.args[1], at_ast, lo, hi)
             if a_ is None or b_ is None:
                 return None
             if e.func.id == "max":
-                return max(a_[0], b_[0]), a_[1] and b_[1]
-            return min(a_[0], b_[0]), a_[1] or b_[1]
+                return max(a_[0], b_[0]), a_[1] and b_[1], a_[2] and b_[2]
+            return min(a_[0], b_[0]), a_[1] or b_[1], a_[2] or b_[2]
         return None
 
     ncase = 0
@@ -392,7 +397,16 @@ def rule_rho_between_rhoend_and_rhobeg(eng, rep, rule="C18-8.rho-stays-between-r
         if not okg or bd is None:
             rep.unknown(rule, site, "case `%s` of reduce_rho is outside the rule's vocabulary" % short(st))
             continue
-        lower, noninc = bd
+        lower, noninc, strict = bd
+        srule = "C18-9.rho-strictly-decreases-whenever-it-is-reduced"
+        if strict:
+            rep.ok(srule, site, "ratio in (%g, %g]: `%s` is strictly below the old rho" % (lo, hi, short(st.value, 50)))
+        elif noninc:
+            key = nonstrict_keys[-1] if nonstrict_keys else "?"
+            rep.bad(srule, site, "controller.Controller.reduce_rho|rho-not-reduced|%s" % key,
+                    "for ratio in (%g, %g] the new rho `%s` can equal the old rho: '%s' = 1.0 is accepted (inclusive upper bound of the parameter table, no validation in solve), "
+                    "reduce_rho then changes nothing and the main loop repeats the same iteration for ever without evaluating the objective (solve never returns)"
+                    % (lo, hi, short(st.value, 50), key))
         if lower >= 1.0 and noninc:
             rep.ok(rule, site, "ratio in (%g, %g]: `%s` is >= rhoend (factor >= %.4g) and <= the old rho" % (lo, hi, short(st.value, 50), lower))
         elif lower < 1.0:
@@ -435,6 +449,20 @@ def rule_rho_between_rhoend_and_rhobeg(eng, rep, rule="C18-8.rho-stays-between-r
                     rep.bad(rule, "params.ParameterList.param_type [%s]" % key, "params|restart-factor-zero|%s" % key,
                             "'%s' = 0.0 is accepted (inclusive lower bound, no validation in solve): rhoend becomes 0 at the first restart and `rho / rhoend` in reduce_rho raises ZeroDivisionError out of solve" % key)
     rep.require_count(rule, "rescalings of rhoend", nres, 2)      # at least the soft-restart and the hard-restart rescaling (today 19 statements)
+
+
+def _strictly_below_one(eng, key):
+    """solve's validation block rejects `params(key) >= 1` with the input-error flag"""
+    solve = eng.fn("solver.solve")
+    cfg = eng.cfg(solve)
+    for n in cfg.nodes_of_kind("cond"):
+        at = atom_of(cfg.ast_of(n), True)
+        if at.op == "le" and isinstance(at.rhs, ast.Call) and param_key(eng, at.rhs) == key and const_value(at.lhs) == 1:
+            for m, e in cfg.succ(n):
+                st = cfg.ast_of(m)
+                if e["label"] is True and isinstance(st, ast.Assign) and ekey(st.targets[0]) == "exit_info" and "EXIT_INPUT_ERROR" in ekey(st.value):
+                    return "solve rejects values >= 1 with the input-error flag"
+    return None
 
 
 def _strictly_positive(eng, key, table_lower):
